@@ -239,7 +239,13 @@ def main():
         shown = {f: (None if c is None else (c[1].to_float() if c[0] == "f64" else c[1])) for f, c in row.items()}
         if sat_sql in (1, True) and in_T is True and in_T2 is False:
             top = p["f"] if p["e"] == "Function" else p["e"]
-            ck.violation("filter=drops-satisfying-row/top=%s" % top, "row %s of %s satisfies %s (SQLite: %s = 1) but is not in the narrowed type %s" % (
+            key = "filter=drops-satisfying-row/top=%s" % top
+            has_float = any(gen.base(ft)["t"] == "Float" for _, ft in T["fields"]) or '"Float"' in json.dumps(p)
+            if has_float and any(c is not None and c[0] == "i64" and abs(int(c[1])) >= (1 << 53) for c in row.values()):
+                # an integer beyond 2^53 compared with a float: the narrowing converts the integer bounds to f64 and back
+                # (C12's finding), the rounded set then misses values of the column
+                key = "filter=drops-satisfying-row/int-to-float-rounding-beyond-2^53"
+            ck.violation(key, "row %s of %s satisfies %s (SQLite: %s = 1) but is not in the narrowed type %s" % (
                 shown, json.dumps(T)[:200], gen.show(p), info["sql"], info["s2"]), dict(T=T, pred=p, row=shown, narrowed=T2, sql=info["sql"]))
         else:
             ck.inconclusive("counterexample %s did not reproduce: row %s pred %s: sqlite=%s in_T=%s in_T'=%s" % (r["id"], shown, gen.show(p), sat_sql, in_T, in_T2))
